@@ -660,10 +660,15 @@ func (sa *Safe) stdlib(fr *frame, st *State, x *ssa.Call, callee *ssa.Function, 
 	case "encoding/hex.EncodeToString":
 		// allocates two characters per octet of its argument
 		if args[0].Len != nil {
-			sa.addAlloc(AllocSite{Fn: SSAFuncName(fr.fn), Pos: x.Pos(), What: "hex.EncodeToString(" + exprText(x.Call.Args[0]) + ")", Size: sa.u.linString(args[0].Len.scale(2)), Max: satMul(st.linItv(args[0].Len).Hi, 2)})
+			if blockInCycle(x.Block()) {
+				// executed once it is linear in the input (allowed); in a loop over the input it is not
+				sa.addAlloc(AllocSite{Fn: SSAFuncName(fr.fn), Pos: x.Pos(), What: "hex.EncodeToString(" + exprText(x.Call.Args[0]) + ") inside a loop", Size: sa.u.linString(args[0].Len.scale(2)), Max: satMul(st.linItv(args[0].Len).Hi, 2)})
+			}
 			return one(AVal{Kind: avStr, Len: args[0].Len.scale(2), Type: types.Typ[types.String]})
 		}
-		sa.addAlloc(AllocSite{Fn: SSAFuncName(fr.fn), Pos: x.Pos(), What: "hex.EncodeToString(" + exprText(x.Call.Args[0]) + ")", Size: "unknown", Max: posInf})
+		if blockInCycle(x.Block()) {
+			sa.addAlloc(AllocSite{Fn: SSAFuncName(fr.fn), Pos: x.Pos(), What: "hex.EncodeToString(" + exprText(x.Call.Args[0]) + ") inside a loop", Size: "unknown", Max: posInf})
+		}
 		return one(sa.freshM(fr, st, types.Typ[types.String], desc, nilMaybe))
 	case "encoding/hex.DecodeString":
 		ln := sa.boundedAtom(fr, st, types.Typ[types.Int], "len("+desc+")", Itv{0, posInf})
@@ -935,4 +940,24 @@ func maxI64(a, b int64) int64 {
 		return a
 	}
 	return b
+}
+
+
+// blockInCycle: the block lies on a cycle of its function's control flow graph (it is in a loop).
+func blockInCycle(b *ssa.BasicBlock) bool {
+	seen := map[*ssa.BasicBlock]bool{}
+	stack := append([]*ssa.BasicBlock{}, b.Succs...)
+	for len(stack) > 0 {
+		n := stack[len(stack)-1]
+		stack = stack[:len(stack)-1]
+		if n == b {
+			return true
+		}
+		if seen[n] {
+			continue
+		}
+		seen[n] = true
+		stack = append(stack, n.Succs...)
+	}
+	return false
 }
